@@ -262,6 +262,12 @@ fn probes() -> Vec<Case> {
     s.input.full = 0;
     s.input.tail = 13;
     v.push(s);
+    // a 24-bit block whose maximum lies in the predictor's warm-up positions (atom 34), mono
+    let mut w = v[2].clone();
+    w.input.ch = 1;
+    w.input.rel = 0;
+    w.input.atoms = [34, 34, 34, 34];
+    v.push(w);
     v
 }
 
